@@ -177,12 +177,32 @@ func isHTTPStatusRetryable(errStr string) bool {
 			strings.Contains(errStr, "status: "+code) ||
 			strings.Contains(errStr, "code "+code) ||
 			strings.Contains(errStr, "code: "+code) ||
-			strings.Contains(errStr, code+" ") { // Status code followed by space (e.g., "500 Internal")
+			containsStatusWord(errStr, code) { // Status code followed by space (e.g., "500 Internal")
 			return true
 		}
 	}
 
 	return false
+}
+
+// containsStatusWord reports whether code, followed by a space, occurs in errStr as a word of its own.
+// A code that merely ends a longer token, such as the host name in "lookup svc-503 on 10.0.0.2:53: no
+// such host" or the number in "wrote 1500 bytes", is not an HTTP status.
+func containsStatusWord(errStr, code string) bool {
+	for from := 0; ; {
+		i := strings.Index(errStr[from:], code+" ")
+		if i < 0 {
+			return false
+		}
+		i += from
+		if i == 0 {
+			return true
+		}
+		if c := errStr[i-1]; !(c >= 'a' && c <= 'z') && !(c >= '0' && c <= '9') && c != '-' && c != '.' && c != '_' {
+			return true
+		}
+		from = i + 1
+	}
 }
 
 // Execute executes a function with exponential backoff retry logic.
